@@ -97,7 +97,8 @@ theorem markerFields_spec (nG : Nat) :
 
 def MkInv (nStr nStacks nCats : Nat) (schemas : List Schema) (nG : Nat) (mk : MarkerTable) : Prop :=
   mk.cats.length = mk.names.length ∧ mk.types.length = mk.names.length ∧
-  mk.stacks.length = mk.names.length ∧ mk.times = mk.names.length ∧
+  mk.stacks.length = mk.names.length ∧
+  (mk.starts.length = mk.names.length ∧ mk.ends.length = mk.names.length ∧ mk.phases.length = mk.names.length) ∧
   AllBelow mk.cats nCats ∧ AllBelow mk.names nStr ∧ OptBelow mk.stacks nStacks ∧
   FlatOk schemas nStr nG mk.types mk.strVals mk.numVals
 
@@ -112,15 +113,15 @@ theorem MarkerTable.add_spec (m : MarkerTable) (name ty : Nat) (schema : Schema)
     (st : ThreadStrings) (nStacks nCats nG : Nat) (schemas : List Schema)
     (hm : MkInv st.n nStacks nCats schemas nG m) (hs : TSInv st) (hname : name < st.n)
     (hty : schemas[ty]? = some schema) (hcat : schema.cat < nCats) (hv : ∀ v ∈ vals, v.1 < nG)
-    (hl : vals.length = schema.stringCount) :
-    ∃ m' st' i, m.add name ty schema vals st = some (m', st', i) ∧ TSInv st' ∧ st.n ≤ st'.n ∧
+    (hl : vals.length = schema.stringCount) (tm : MTiming) :
+    ∃ m' st' i, m.add name ty schema vals st tm = some (m', st', i) ∧ TSInv st' ∧ st.n ≤ st'.n ∧
       MkInv st'.n nStacks nCats schemas nG m' ∧ i < m'.names.length := by
   obtain ⟨a1, a2, a3, a4, a5, a6, a7, a8⟩ := hm
   obtain ⟨st', new, e, b1, b2, b3, b4⟩ := markerFields_spec nG schema.fields vals st m.strVals m.numVals hs hv hl
   unfold MarkerTable.add
   simp only [e]
   refine ⟨_, _, _, rfl, b1, b2, ?_, by simp; omega⟩
-  refine ⟨by simp [a1], by simp [a2], by simp [a3], by simp [a4], a5.append_one hcat,
+  refine ⟨by simp [a1], by simp [a2], by simp [a3], ⟨by simp [a4.1], by simp [a4.2.1], by simp [a4.2.2]⟩, a5.append_one hcat,
     (a6.mono b2).append_one (Nat.lt_of_lt_of_le hname b2), a7.append_one (by simp), ?_⟩
   exact FlatOk.append schemas st'.n nG ty schema new hty b3 b4 _ _ _
     (FlatOk.mono (fun _ _ h => h) b2 (Nat.le_refl _) _ _ _ a8)
